@@ -129,6 +129,28 @@ CHECKS["C03"] = cfg(
                  "a vp.id present while jti is absent is not judged (latitude)"],
 )
 
+CHECKS["C16"] = cfg(
+    "C16",
+    technique="runtime monitoring: decision-table oracle over harness-assembled SD-JWTs, disclosures (own SHA-256 digests) and KB-JWTs; accept <=> all conditions; panic monitor",
+    level_text="SD-JWT credentials (0-4 concealed claims + nested concealed claim, decoys, every disclosed subset, forged/foreign/duplicated/garbage/reordered disclosures, _sd_alg forms) and KB-JWTs (typ, kid/method id, scope, signature by another key, sd_hash over other concatenations, nonce, aud, iat at the inclusive window edges and a day either side of now) are assembled by the harness so each condition is true or false by construction; validate_credential / validate_key_binding_jwt must accept exactly when all hold, return the original credential with exactly the disclosed claims restored, and never panic.",
+    min={"quick": {"cred_accepted": 300, "cred_rejected": 600, "kb_accepted": 200, "kb_rejected": 700, "kb_rejected:signature": 100, "kb_rejected:sd_hash": 60,
+                   "cred_rejected:disclosure-bound-to-signed-digest": 60, "distinct:condition_vectors": 60},
+         "thorough": {"cred_accepted": 6000, "kb_accepted": 4000, "kb_rejected": 15000, "distinct:condition_vectors": 100}},
+    assumptions=["a duplicated disclosure may be refused or accepted (latitude)",
+                 "the typ spelling is judged by one dedicated signature (known finding: the dependency's constant is ' kb+jwt'); all other KB scenarios treat the library's own constant and 'kb+jwt' as the right type",
+                 "the 'not in the future' branch (latest_issuance_date unset) is tested a full day either side of the wall clock"],
+)
+
+CHECKS["C06"] = cfg(
+    "C06",
+    technique="runtime monitoring: BTreeSet<u32> reference model over bitmap/service/document/validator executions; legacy form built by the harness; zlib block-type classification of every produced stream",
+    level_text="Index sets of every shape (boundaries, dense, runs, sparse, all 65536 containers, up to 1e5 elements; stored, fixed and dynamic deflate blocks all observed) are encoded to a service and decoded back through the real code and compared with a set model, in the modern and the harness-built legacy form; revoke/unrevoke batch histories on CoreDocument/IotaDocument must change exactly the batch indices and nothing else in the document; check_status must report Revoked iff member.",
+    min={"quick": {"sets": 2000, "roundtrip_ok": 500, "legacy_ok": 500, "block_stored": 50, "block_fixed": 200, "block_dynamic": 300,
+                   "histories": 200, "batches": 150, "check_status_revoked": 2000, "check_status_not_revoked": 5000, "mismatch_rejected": 1000, "nontrivial": 500},
+         "thorough": {"sets": 50000, "roundtrip_ok": 10000, "legacy_ok": 10000, "block_stored": 1000, "block_dynamic": 5000, "histories": 6000, "batches": 5000}},
+    assumptions=["endpoints produced by other zlib encoders are outside the statement"],
+)
+
 # Default entries for properties whose monitors are being built (not claimed in MANIFEST.json until enabled).
 for _pid in ["C%02d" % i for i in range(1, 21)]:
     if _pid not in CHECKS:
